@@ -66,11 +66,11 @@ CHECKS.update({
    text="The real director runs in watch mode on real inotify; each watch phase applies a random event sequence (create/modify/delete/restore/recreate of sources, glob matches, tree files, outputs; directory removal and move; plan edits); the rebuilt state is compared by TLC with a restarted director on a snapshot of the same pre-state with the same events applied.",
    note=REL_NOTE),
  "C06": dict(engine="buildlayer", category="model_checking", design_ref="§8 C06",
-   technique="TLA+ trace validation (TLC): every file removed between phase end and finalize end must be a recorded, unmodified (or volatile) output and clean-up must be allowed; TLA+ relational check of `stepup clean` invocations (RelCheck.tla clean_tool)",
+   technique="TLA+ trace validation (TLC): every file removed between phase end and finalize end must be a recorded, unmodified (or volatile) output and clean-up must be allowed; TLA+ relational check of `stepup clean` invocations (RelCheck.tla clean_tool) + Cleanup.tla (operational model of delete_detached / before_delete / remove_deletable_files: model checked over the whole configuration family, finds F9 in its strict form; configurations replayed into the real Workflow on a real directory, Layer G)",
    text="On histories that include users overwriting, deleting, replacing by a directory or adopting outputs, TLC checks every automatic removal against what steps recorded as written, and every `stepup clean` invocation (argument sets over paths/--all/--unsafe/--commit, read-only connection) against the database projection and the tree before/after.",
    note=TRACE_NOTE),
  "C07": dict(engine="buildlayer", category="model_checking", design_ref="§8 C07",
-   technique="TLA+ trace validation (TLC): after a successful unrestricted build with clean-up, no unmodified former output that no active step uses remains on disk or in the graph; empty output directories are gone",
+   technique="TLA+ trace validation (TLC): after a successful unrestricted build with clean-up, no unmodified former output that no active step uses remains on disk or in the graph; empty output directories are gone + Cleanup.tla (operational model of delete_detached / before_delete / remove_deletable_files: model checked over the whole configuration family, finds F9 in its strict form; configurations replayed into the real Workflow on a real directory, Layer G)",
    text="After every successful unrestricted phase of generated histories (plan edits that drop, rename, move, re-role steps and outputs, optional steps), TLC checks the NoOrphans monitor on the committed graph and the tree snapshot.",
    note=TRACE_NOTE),
  "C11": dict(engine="buildlayer", category="model_checking", design_ref="§8 C11",
@@ -156,6 +156,7 @@ def main():
             {"name": "schedcache", "path": "checks/schedcache.py", "serves_properties": ["C10", "C11", "C12"], "kind_free_text": "SchedCache.tla model check (cache = definition whenever nothing is flagged; finds F1 and F2 in their pre-fix variants) + replay of graph-modification sequences into the real Workflow + Scheduler (Layer G); library called by the C10, C11 and C12 checks"},
             {"name": "defer", "path": "checks/defer.py", "serves_properties": ["C02", "C03", "C10"], "kind_free_text": "Defer.tla model check (NoLostWakeup, defer cap, Settles under fairness; finds the BUILT-only re-check variant) + replay of amend / declare / confirm / complete interleavings into the real Workflow (Layer G); library called by the C02, C03 and C10 checks"},
             {"name": "watchsets", "path": "checks/watchsets.py", "serves_properties": ["C14"], "kind_free_text": "WatchSets.tla model check (Complete, DeletedAbsent, UpdatedPresent; finds the cancelling-pair variant) + replay of event sequences into the real Watcher.record_change (Layer G); library called by the C14 check"},
+            {"name": "cleanup", "path": "checks/cleanup.py", "serves_properties": ["C06", "C07"], "kind_free_text": "Cleanup.tla model check over the whole configuration family (only deleted nodes lose their file, modified files kept, survivors held by something attached; the strict form fails: F9) + replay of sampled configurations into the real Workflow, delete_detached and remove_deletable_files on a real directory (Layer G); library called by the C06 and C07 checks"},
             {"name": "recycle", "path": "checks/recycle.py", "serves_properties": ["C01"], "kind_free_text": "Recycle.tla model check + replay of plan re-execution sequences into the real Workflow (Layer G); library called by the C01 check"},
         ],
         "checks": checks,
